@@ -56,6 +56,10 @@ type Probes struct {
 	W       *SimWriter
 	Calls   int // dynamic probe calls so far
 	FailAt  int // 1-based dynamic call index at which fail() panics (0: never)
+	FailAt2 int // a second failing call (e.g. inside the catch body the first failure led to)
+	NFired  int
+	Tokens  bool // mark(K) renders a visible token "@@K.n@@" (n-th dynamic call of site K)
+	perSite map[int]int
 	Fired   bool
 	FiredID int   // static id of the probe that fired
 	IDs     []int // static id per dynamic call
@@ -79,10 +83,18 @@ func (p *Probes) fn(arm bool) jet.Func {
 			off = len(p.W.Buf)
 		}
 		p.Offs = append(p.Offs, off)
-		if arm && p.FailAt > 0 && p.Calls == p.FailAt {
+		if arm && ((p.FailAt > 0 && p.Calls == p.FailAt) || (p.FailAt2 > 0 && p.Calls == p.FailAt2)) {
 			p.Fired = true
+			p.NFired++
 			p.FiredID = id
 			panic(fmt.Errorf("INJ-%d-%s: simulated function failure", id, p.Tag))
+		}
+		if p.Tokens && !arm {
+			if p.perSite == nil {
+				p.perSite = map[int]int{}
+			}
+			p.perSite[id]++
+			return reflect.ValueOf(fmt.Sprintf("@@%d.%d@@", id, p.perSite[id]))
 		}
 		return reflect.ValueOf("")
 	}
@@ -91,16 +103,21 @@ func (p *Probes) fn(arm bool) jet.Func {
 // Call is one Execute with everything that is an input of it: the template,
 // the data, and the per-call fault plan.
 type Call struct {
-	Tmpl       string
-	Data       gen.DataSpec
-	FaultProbe int // k-th dynamic probe call panics with an error
-	FaultWrite int // k-th Write on the writer fails
+	Tmpl        string
+	Data        gen.DataSpec
+	FaultProbe  int // k-th dynamic probe call panics with an error
+	FaultProbe2 int // a second failing call (numbered in the run that already has the first fault)
+	FaultWrite  int // k-th Write on the writer fails
+	Tokens      bool
 }
 
 func (c Call) String() string {
 	s := c.Tmpl
 	if c.FaultProbe > 0 {
 		s += fmt.Sprintf(" fault=probe-call#%d", c.FaultProbe)
+	}
+	if c.FaultProbe2 > 0 {
+		s += fmt.Sprintf("+probe-call#%d", c.FaultProbe2)
 	}
 	if c.FaultWrite > 0 {
 		s += fmt.Sprintf(" fault=write#%d", c.FaultWrite)
@@ -146,6 +163,7 @@ func Vars(d gen.DataSpec, p *Probes) jet.VarMap {
 	vm.Set("root", root)
 	vm.Set("item", root.Items[0])
 	vm.Set("names", root.Names)
+	vm.Set("none", []string{})
 	vm.Set("s", "sv")
 	vm.Set("n", 3)
 	vm.SetFunc("fail", p.fn(true))
@@ -166,7 +184,7 @@ func NewSet(files map[string]string, opts ...jet.Option) (*jet.Set, *jet.InMemLo
 // Exec performs one call on the given Set.
 func Exec(set *jet.Set, c Call, tag string) Outcome {
 	w := &SimWriter{FailAt: c.FaultWrite}
-	p := &Probes{W: w, FailAt: c.FaultProbe, Tag: tag}
+	p := &Probes{W: w, FailAt: c.FaultProbe, FailAt2: c.FaultProbe2, Tag: tag, Tokens: c.Tokens}
 	o := Outcome{Probes: p, W: w}
 	var t *jet.Template
 	var err error
@@ -376,6 +394,9 @@ func (h *hasher) walk(v reflect.Value, depth int) {
 
 // installPools puts simulated pools in place for the duration of a run.
 func installPools(env *sim.Env, policy simrt.PoolPolicy) (*simrt.Pools, func()) {
+	// the struct field cache is process-wide: start every run from the same (empty) state so that a
+	// run is a function of its tape alone
+	jet.VerifResetStructFieldCache()
 	p := &simrt.Pools{Tape: env.Tape, Policy: policy}
 	p.Trace = func(format string, a ...any) { env.Event(format, a...) }
 	un := p.Install()
@@ -389,6 +410,7 @@ func poolStats(env *sim.Env, p *simrt.Pools) {
 	env.Stat("pool:ranger_fresh", p.RgFresh)
 	env.Stat("pool:ranger_reused", p.RgReused)
 	env.Stat("probe:ranger_reused_by_nested_or_later_range", p.RgReusedNested)
+	env.Stat("probe:object_put_into_pool_twice", p.DoublePuts)
 }
 
 type jetSet struct{ set *jet.Set }
@@ -407,7 +429,7 @@ func execWatch(s *jetSet, c Call, nestedAt map[int]bool) (Outcome, []io.Writer) 
 	var writers []io.Writer
 	writers = append(writers, nil)
 	w := &SimWriter{FailAt: c.FaultWrite}
-	p := &Probes{W: w, FailAt: c.FaultProbe, Tag: "x"}
+	p := &Probes{W: w, FailAt: c.FaultProbe, FailAt2: c.FaultProbe2, Tag: "x", Tokens: c.Tokens}
 	o := Outcome{Probes: p, W: w}
 	var t *jet.Template
 	var err error
@@ -422,11 +444,19 @@ func execWatch(s *jetSet, c Call, nestedAt map[int]bool) (Outcome, []io.Writer) 
 	vm := Vars(c.Data, p)
 	inner := p.fn(false)
 	innerFail := p.fn(true)
+	// "is this call inside a try/exec?" is decided by comparing the runtime's current Writer with
+	// the one seen at the root template's first statement (mark 9000, top level by construction),
+	// not with the SimWriter itself: an implementation may legitimately wrap the caller's writer
+	var w0 io.Writer
 	vm.SetFunc("mark", func(a jet.Arguments) reflect.Value {
-		if cur, ok := a.Runtime().Writer.(*SimWriter); !ok || cur != w {
+		cur := a.Runtime().Writer
+		if w0 == nil && len(writers) == 1 {
+			w0 = cur
+		}
+		if w0 != nil && cur != w0 {
 			nestedAt[p.Calls+1] = true
 		}
-		writers = append(writers, a.Runtime().Writer)
+		writers = append(writers, cur)
 		return inner(a)
 	})
 	vm.SetFunc("fail", func(a jet.Arguments) reflect.Value {
